@@ -6,6 +6,7 @@ import (
 )
 
 type shOpts struct {
+	hugeP       float64 // probability of capacities near the top of the uint32 range
 	slowCreateP float64 // probability that an instance's CreatePartitions calls take time (v2)
 	gens        []int
 	nInst       []int
@@ -33,7 +34,7 @@ func defaultShOpts() shOpts {
 		reserveds: []int64{0, 5, 100}, shareds: []int64{1, 4, 10, 30, 100}, latencies: []int64{0, 1*MS + 7, 40*MS + 13, 700*MS + 3, 2*SEC + 11, 2*SEC + 11, 15*SEC + 3, 17*SEC + 1},
 		whenModes: []int{0, 1, 2}, faultP: 0.15, nSteps: []int{4, 10, 25}, gapMS: []int64{50, 400, 3000},
 		demands: []int64{0, 1, 3, 7, 10, 25, 90, 100, 1000}, reconfP: 0.0, crashP: 0, lifeP: 0.03, noMgrP: 0.05, horizon: 40 * SEC,
-		provFailP: 0.05, slowCreateP: 0.3,
+		provFailP: 0.05, slowCreateP: 0.3, hugeP: 0.04,
 	}
 }
 
@@ -47,6 +48,19 @@ func genShared(rng *rand.Rand, name string, o shOpts) *SScenario {
 	}
 	if shared > 60*maxi(factor, 1) && !chance(rng, 0.1) {
 		shared = 60 * maxi(factor, 1) // keep partition counts moderate (the 500 limit has its own family)
+	}
+	if chance(rng, o.hugeP) {
+		// capacities at the top of the uint32 range (the partition count must still be the exact ceiling); the pairs
+		// keep reserved + shared and factor x partitions inside uint32, which the API cannot exceed by its types
+		hp := pick(rng, 0, 1, 2)
+		switch hp {
+		case 0:
+			shared, factor = 4290000000, 10000000
+		case 1:
+			shared, factor = 4294000000, 2000000
+		default:
+			shared, factor = 4294967095, 4294967095
+		}
 	}
 	for i := 0; i < n; i++ {
 		in := SInst{Factor: factor, MaxInt: pick(rng, o.maxInts...), HasMgr: true, Reserved: pick(rng, o.reserveds...), Shared: shared}
@@ -128,6 +142,10 @@ func genShared(rng *rand.Rand, name string, o shOpts) *SScenario {
 				steps = append(steps, SStep{At: t, Inst: i, Kind: "setreserved", A: []int64{pick(rng, o.reserveds...)}})
 			} else {
 				v := pick(rng, o.shareds...) * maxi(factor, 1)
+				if v > 4294967000 {
+					// stay inside what the uint32 API can express (and factor x partitions inside uint32 as well)
+					v = pick(rng, shared, shared-maxi(factor, 1), shared/2, int64(1))
+				}
 				if chance(rng, 0.15) {
 					v = 0
 				}
@@ -200,6 +218,7 @@ func GenShared(family string, seed int64, idx int) *SScenario {
 		o.nSteps = []int{2, 5}
 		o.horizon = 20 * SEC
 		o.lifeP = 0
+		o.hugeP = 0.15
 		return genSharedBig(rng, family, o)
 	case "sh-demand": // GiveMe histories over several lease durations
 		o.nSteps = []int{10, 25}
